@@ -505,7 +505,32 @@ def rule_T14(text):
     return text, n
 
 
-RULES = {'T1': rule_T1, 'T2': rule_T2, 'T3': rule_T3, 'T5': rule_T5, 'T9': rule_T9, 'T10': rule_T10, 'T11': rule_T11, 'T12': rule_T12, 'T13': rule_T13, 'T14': rule_T14}
+def rule_T15(text):
+    """a plain integer behind a lock guard (`RwLock<Weight>`): the dereference operators on the guard are written as methods of the
+    guard stand-in, so that the ghost World can follow them:
+        *G += E;   ->  G.verif_add_assign(E);        *G -= E;  ->  G.verif_sub_assign(E);        *G = E;  ->  G.verif_assign(E);
+        *PATH.read()  ->  PATH.read().verif_get()          (G an identifier bound to `PATH.write()`)"""
+    fired = 0
+    for op, name in ((r'\+=', 'verif_add_assign'), (r'-=', 'verif_sub_assign'), (r'=(?!=)', 'verif_assign')):
+        while True:
+            mask = code_mask(text)
+            m = re.search(r'(?<![\w\)\]])\*\s*(\w+)\s*' + op + r'\s*', mask)
+            if not m:
+                break
+            e = mask.index(';', m.end())
+            text = text[:m.start()] + '%s.%s(%s)' % (m.group(1), name, text[m.end():e].strip()) + text[e:]
+            fired += 1
+    while True:
+        mask = code_mask(text)
+        m = re.search(r'\*\s*((?:\w+\s*\.\s*)+read\s*\(\s*\))', mask)
+        if not m:
+            break
+        text = text[:m.start()] + text[m.start(1):m.end(1)] + '.verif_get()' + text[m.end():]
+        fired += 1
+    return text, fired
+
+
+RULES = {'T1': rule_T1, 'T2': rule_T2, 'T3': rule_T3, 'T5': rule_T5, 'T9': rule_T9, 'T10': rule_T10, 'T11': rule_T11, 'T12': rule_T12, 'T13': rule_T13, 'T14': rule_T14, 'T15': rule_T15}
 
 
 def t6_key(callees):
